@@ -342,10 +342,10 @@ def run_all_small(case):
 
 
 CLAUSES = [
-    Clause("terminates_builder", mle_case(6, with_container=True), run_terminates_builder, quick=600, thorough=5000),
+    Clause("terminates_builder", mle_case(6, with_container=True), run_terminates_builder, quick=500, thorough=5000),
     Clause("terminates_impls", mle_case(6), run_terminates_impls, quick=400, thorough=2500),
     Clause("terminates_impls_large", mle_case(9), run_terminates_impls, quick=0, thorough=2000),
-    Clause("likelihood_optimal", mle_case(6, with_competitor=True), run_likelihood, quick=500, thorough=4000),
+    Clause("likelihood_optimal", mle_case(6, with_competitor=True), run_likelihood, quick=400, thorough=4000),
     Clause("likelihood_optimal_large", mle_case(9, with_competitor=True), run_likelihood, quick=0, thorough=3000),
     Clause("prinz_equations", mle_case(6), run_prinz, quick=500, thorough=3000),
     Clause("prinz_equations_large", mle_case(9), run_prinz, quick=0, thorough=2000),
